@@ -68,6 +68,7 @@ const (
 	FaultScopeUnsupported = "scope-unsupported" // single-sided leaf scoped to its other side
 	FaultScopeInvalid     = "scope-invalid"     // a scope string that is neither request nor response
 	FaultTwoKeys          = "two-keys"          // the node's object has two keys
+	FaultNoModifier       = "no-modifier"       // a filter without "modifier", or a priority entry (index FaultAt) without "modifier": names nothing to apply
 )
 
 // Node is one node of a configuration tree.
@@ -79,6 +80,8 @@ type Node struct {
 	Agg      bool              `json:"agg,omitempty"`       // fifo: aggregateErrors
 	Kids     []*Node           `json:"kids,omitempty"`      // groups: children in listed order
 	Prio     []int             `json:"prio,omitempty"`      // priority group: priority per child
+	NoPrio   []bool            `json:"no_prio,omitempty"`   // priority group: the entry omits the "priority" key (legal, means 0)
+	FaultAt  int               `json:"fault_at,omitempty"`  // FaultNoModifier on a priority group: index of the entry
 	P        map[string]string `json:"p,omitempty"`         // string parameters (name, value, method, scheme, ...)
 	N        int               `json:"n,omitempty"`         // statusCode
 	Names    []string          `json:"names,omitempty"`     // header.Blacklist
@@ -126,6 +129,17 @@ func (n *Node) Acts(s Side) bool {
 		}
 	}
 	return false
+}
+
+func (n *Node) omitsPrio(i int) bool { return i < len(n.NoPrio) && n.NoPrio[i] }
+
+// PrioOf is the effective priority of child i of a priority group: an entry
+// without a "priority" key has priority 0.
+func (n *Node) PrioOf(i int) int {
+	if n.omitsPrio(i) {
+		return 0
+	}
+	return n.Prio[i]
 }
 
 // Walk visits every node depth-first (children, then, else).
@@ -182,11 +196,20 @@ func (n *Node) Config() interface{} {
 	case n.T == Priority:
 		kids := []interface{}{}
 		for i, k := range n.Kids {
-			kids = append(kids, map[string]interface{}{"priority": n.Prio[i], "modifier": k.Config()})
+			e := map[string]interface{}{"modifier": k.Config()}
+			if !n.omitsPrio(i) {
+				e["priority"] = n.Prio[i]
+			}
+			if n.Fault == FaultNoModifier && i == n.FaultAt {
+				delete(e, "modifier")
+			}
+			kids = append(kids, e)
 		}
 		body["modifiers"] = kids
 	case IsFilter(n.T):
-		body["modifier"] = n.Then.Config()
+		if n.Fault != FaultNoModifier {
+			body["modifier"] = n.Then.Config()
+		}
 		if n.Else != nil {
 			body["else"] = n.Else.Config()
 		}
@@ -431,7 +454,7 @@ func (in *Interp) eval(n *Node, s Side, req *Req, res *Res) []string {
 		var order []pk
 		for i, k := range n.Kids {
 			if k.Acts(s) {
-				order = append(order, pk{n.Prio[i], i, k})
+				order = append(order, pk{n.PrioOf(i), i, k})
 			}
 		}
 		// descending priority; among equals the later-listed first
